@@ -223,8 +223,8 @@ def _all_days(shard, nshards):
 
 
 def stages(ctx):
-    out = [Stage("dates", "hyp", strategy=date_cases(), examples=ctx.n(24000, 200000)),
-           Stage("timestamps", "hyp", strategy=ts_cases(), examples=ctx.n(8000, 100000))]
+    out = [Stage("dates", "hyp", strategy=date_cases(), examples=ctx.n(60000, 200000)),
+           Stage("timestamps", "hyp", strategy=ts_cases(), examples=ctx.n(20000, 100000))]
     if not ctx.quick:
         out.append(Stage("all_days", "enum", cases=_all_days, exhaustive=False))
     return out
